@@ -269,7 +269,13 @@ func (v *Verifier) verifyFunction(key string) (res *FuncResult) {
 		v.allocatedFact(c, pv, fr.entrySt.nxt)
 	}
 	for _, f := range fn.FreeVars {
+		if os.Getenv("GOVC_DEBUG") != "" {
+			fmt.Printf("debug freevar %s : %s\n", f.Name(), f.Type())
+		}
 		pv := v.freshValIn(c, f.Type(), "fv."+f.Name())
+		if pv.K == KLoc && pv.Loc != nil && pv.Loc.Ref != "" {
+			c.assert(lt("0", pv.Loc.Ref), "captured variable cell is allocated")
+		}
 		fr.free = append(fr.free, pv)
 		v.allocatedFact(c, pv, fr.entrySt.nxt)
 	}
